@@ -369,3 +369,33 @@ package badger
 //@   assert[done-on-error] before call doneCommit : arg1 == ret0(newCommitTs#1)
 //@   assert[conflict-sends-nothing] before return : ret1(newCommitTs#1) ==> result1 == ErrConflict && !called(sendToWriteCh#1)
 //@   assert[send-error-returned] before return : called(sendToWriteCh#1) && ret1(sendToWriteCh#1) != nil ==> called(doneCommit#1) && result1 == ret1(sendToWriteCh#1)
+
+// ---- DropPrefix (C29): "no key starting with the prefix" is a statement about user keys ----
+
+//@ func hasAnyPrefixes
+//@   props C29
+//@   ensures[exact] result <==> exists i int :: 0 <= i && i < len(listOfPrefixes) && hasPrefix(s, listOfPrefixes[i])
+//@   loop 1 invariant[range] -1 <= rangeindex && rangeindex < len(listOfPrefixes)
+//@   loop 1 invariant[none] forall i int :: 0 <= i && i <= rangeindex ==> !hasPrefix(s, listOfPrefixes[i])
+
+// The prefixes are tested against the user key, not the internal key (whose eight version
+// bytes, 0xFF.. for small versions, could otherwise complete a prefix the user key lacks).
+//@ func buildL0Table
+//@   props C29
+//@   light
+//@   assert[user-key] before call hasAnyPrefixes : arg0 == ret(ParseKey#1) && arg1 == dropPrefixes
+//@   assert[of-current-key] before call ParseKey#1 : arg0 == ret(Key#1)
+
+//@ func (*levelsController).subcompact.addKeys
+//@   props C29
+//@   light
+//@   assert[user-key] before call hasAnyPrefixes : arg0 == ret(ParseKey#1)
+//@   assert[of-current-key] before call ParseKey#1 : arg0 == ret(Key#1)
+
+//@ func (*levelsController).compactBuildTables.keepTable
+//@   props C29
+//@   light
+//@   assert[smallest-user-key] before call HasPrefix#1 : arg0 == ret(ParseKey#1) && arg1 == prefix
+//@   assert[smallest] before call ParseKey#1 : arg0 == ret(Smallest#1)
+//@   assert[biggest-user-key] before call HasPrefix#2 : arg0 == ret(ParseKey#2) && arg1 == prefix
+//@   assert[biggest] before call ParseKey#2 : arg0 == ret(Biggest#1)
